@@ -1,5 +1,7 @@
+import GohbaseVerif.Drive.C10
 import GohbaseVerif.Drive.C16
 import GohbaseVerif.Drive.C17
+import GohbaseVerif.Drive.Conn
 /-!
 Line-protocol driver: one test case per line, `<model> <op> <args…>`; one reply per line:
 `OK tags=…` | `DIFF …` (model ≠ implementation) | `SPEC …` (implementation violates the Lean
@@ -9,8 +11,12 @@ open GV
 
 def dispatch (line : String) : String :=
   match (line.splitOn " ").filter (· ≠ "") with
+  | "c10" :: rest => Drive.C10.handle rest
   | "c16" :: rest => Drive.C16.handle rest
   | "c17" :: rest => Drive.C17.handle rest
+  | "c03" :: rest => Drive.Conn.handle "c03" rest
+  | "c18" :: rest => Drive.Conn.handle "c18" rest
+  | "c02" :: rest => Drive.Conn.handle "c02" rest
   | _ => "BAD model"
 
 partial def loop (hin hout : IO.FS.Stream) : IO Unit := do
